@@ -300,6 +300,9 @@ pub struct PayHidden {
     /// replace digit proofs 0 and 1 by a jointly crafted cancelling pair aimed at this value
     pub cb_cancel: Option<Scalar>,
     pub mb_cancel: Option<Scalar>,
+    /// show `token` exactly as given instead of re-randomizing and blinding it (for "tokens" made of
+    /// curve points outside the prime-order subgroup, whose pairing with anything is 1)
+    pub raw_token: bool,
 }
 
 #[derive(Clone, Debug, Serialize, Deserialize, Hash, PartialEq, Eq)]
@@ -467,7 +470,7 @@ impl PayForger {
         let rho = rand_nonzero_scalar(seed ^ 46);
         let s1 = G1Projective::from(hidden.token.0);
         let s2 = G1Projective::from(hidden.token.1);
-        let token_sig = (s1 * rho, (s2 + s1 * bf_t) * rho);
+        let token_sig = if hidden.raw_token { (s1, s2) } else { (s1 * rho, (s2 + s1 * bf_t) * rho) };
         let token = Sub::new(h2, g2s, hidden.old.to_vec(), bf_t, tt.clone(), rs(seed, 47));
         // new state / close state over (g1, y1s)
         let (h1, g1s) = m.pk.g1_params();
